@@ -1100,6 +1100,10 @@ def run(rep: Report, ctx: Any) -> str:
                       "and the fall-through `return <value>` is written exactly when a member without one exists")
     rep.rule("R04.8", "raising the dedicated error cannot fail itself: every conversion UnexpectedStatus applies to the raw body of an "
                       "undocumented response is total (bytes.decode with a non-raising error handler) or enclosed by a try catching it")
+    rep.rule("R04.15", "one parsed response per documented status: every statement of _add_responses (and of the private helpers it calls) "
+                       "that adds to <endpoint>.responses adds exactly one element, stands in exactly one loop, and no path of the loop "
+                       "body leads from one such statement to another (the statuses of the list stay pairwise distinct like the keys of "
+                       "the document's mapping; the generated dispatch decodes a status by the first response that carries it)")
     rep.rule("R04.7", "resolving a $ref'd component response rebinds only `data`: the threaded state and the naming inputs are the same as "
                       "for an inline response (shared with C20)")
 
@@ -1604,6 +1608,96 @@ def run(rep: Report, ctx: Any) -> str:
               "responses are dropped)", where(ar, ar.node),
               lhs=[(o.kind, getattr(o.node, "lineno", "?"), sorted(o.flags - {"raised"})) for o in unrecorded],
               rhs="the iteration ends with an append to <endpoint>.errors and none to <endpoint>.responses")
+
+    # ---- R04.15: one parsed response per documented status ------------------------------------------------------------------------
+    # The endpoint template writes one status test per parsed response, in list order, each returning (R04.1): a status is decoded by
+    # the FIRST response that carries it, so "decoded according to the documented media type and schema" needs the statuses of
+    # <endpoint>.responses to be pairwise distinct.  The document's `responses` is a mapping (distinct keys) and a key converts to one
+    # status; the list inherits distinctness as long as every iteration over the mapping adds at most one element to it.  Stated on the
+    # statements that add to an attribute `responses` in _add_responses and the private helpers it calls: each adds exactly one element
+    # (append / insert / a one-element display added or extended), stands in exactly one loop (a helper's: none, and its call in
+    # _add_responses in one) and no path of the loop body leads from one of them to another without passing the loop head.
+    from ..cfg import CFG, own_exprs, walk_own
+
+    def added_elements(st: ast.stmt) -> "int | None":
+        """how many elements the statement adds to an attribute `responses` (0: none; None: a number that is not written down)"""
+        def is_resp(e: ast.AST) -> bool:
+            return isinstance(e, ast.Attribute) and e.attr == "responses"
+
+        def display_len(e: ast.AST) -> "int | None":
+            return len(e.elts) if isinstance(e, (ast.List, ast.Tuple)) and not any(isinstance(x, ast.Starred) for x in e.elts) else None
+
+        total: "int | None" = 0
+        for n in walk_own(st):
+            k: "int | None" = 0
+            if isinstance(n, ast.Call) and isinstance(n.func, ast.Attribute) and is_resp(n.func.value):
+                if n.func.attr in ("append", "insert"):
+                    k = 1
+                elif n.func.attr == "extend":
+                    k = display_len(n.args[0]) if len(n.args) == 1 else None
+            elif isinstance(n, ast.AugAssign) and is_resp(n.target):
+                k = display_len(n.value) if isinstance(n.op, ast.Add) else None
+            elif isinstance(n, (ast.Assign, ast.AnnAssign)) and any(is_resp(t) for t in (n.targets if isinstance(n, ast.Assign) else [n.target])):
+                v = n.value
+                if isinstance(v, ast.BinOp) and isinstance(v.op, ast.Add) and is_resp(v.left):
+                    k = display_len(v.right)
+                elif isinstance(v, (ast.List, ast.Tuple)) and sum(1 for x in v.elts if isinstance(x, ast.Starred)) == 1 \
+                        and all(is_resp(x.value) for x in v.elts if isinstance(x, ast.Starred)):
+                    k = len(v.elts) - 1
+                elif isinstance(v, (ast.List, ast.Tuple)) and not v.elts:
+                    k = 0
+                else:
+                    k = None
+            total = None if total is None or k is None else total + k
+        return total
+
+    def loops_around(fn: ast.AST, st: ast.AST) -> list[ast.AST]:
+        return [n for n in ast.walk(fn) if isinstance(n, (ast.For, ast.AsyncFor, ast.While, ast.ListComp, ast.SetComp, ast.DictComp, ast.GeneratorExp))
+                and n is not st and any(sub is st for sub in ast.walk(n))]
+
+    problems: list[str] = []
+    ar_sites: list[ast.stmt] = []      # statements of _add_responses that add a response (themselves or through a helper)
+    n_sites = 0
+    helper_names = {h.name: h for h in a_helpers}
+    adding_helpers: set[str] = set()
+    for g in [*a_helpers, ar]:
+        for st in [x for x in ast.walk(g.node) if isinstance(x, ast.stmt) and not isinstance(x, (ast.FunctionDef, ast.AsyncFunctionDef, ast.ClassDef))]:
+            if isinstance(st, (ast.If, ast.For, ast.AsyncFor, ast.While, ast.With, ast.AsyncWith, ast.Try)):
+                # a compound statement: its header only (the statements inside are looked at one by one)
+                hdr = ast.Expr(value=ast.Tuple(elts=[e for e in own_exprs(st) if isinstance(e, ast.expr)], ctx=ast.Load()))
+                k = added_elements(hdr)
+            else:
+                k = added_elements(st)
+            via = [helper_names[call_name(c).rsplit(".", 1)[-1]].name for c in calls_in(st) if not isinstance(st, (ast.If, ast.For, ast.AsyncFor, ast.While, ast.With, ast.AsyncWith, ast.Try))
+                   and call_name(c).rsplit(".", 1)[-1] in adding_helpers] if g is ar else []
+            if k == 0 and not via:
+                continue
+            n_sites += 1
+            if k is None or k + len(via) != 1:
+                problems.append(f"{short(g)}:{st.lineno} adds {'an unwritten number of' if k is None else k + len(via)} responses at once")
+            inner = loops_around(g.node, st)
+            if g is ar:
+                ar_sites.append(st)
+                if len(inner) != 1:
+                    problems.append(f"{short(g)}:{st.lineno} adds a response inside {len(inner)} nested loops")
+            else:
+                adding_helpers.add(g.name)
+                if inner:
+                    problems.append(f"{short(g)}:{st.lineno} adds a response inside a loop of the helper")
+    rep.require(n_sites, "a statement that adds to <endpoint>.responses in _add_responses or its private helpers")
+    ar_cfg = CFG(ar.node)
+    for s1 in ar_sites:
+        lp = loops_around(ar.node, s1)
+        if len(lp) != 1 or not isinstance(lp[0], ast.stmt):
+            continue
+        after = ar_cfg.reachable_from(s1, avoid=lambda n, _lp=lp[0]: n is _lp)
+        again = [s2 for s2 in ar_sites if s2 is not s1 and any(s2 is x for x in after)]
+        if again:
+            problems.append(f"{short(ar)}:{s1.lineno} and :{again[0].lineno} both add a response in one iteration")
+    rep.check(not problems, "R04.15", "_add_responses::one-response-per-documented-status",
+              "an iteration over the document's responses can add more than one parsed response: two responses with one status make the "
+              "later one unreachable in the generated status dispatch, so that status is decoded with another response's media type / schema",
+              where(ar, ar.node), lhs=problems, rhs="every iteration adds at most one element to <endpoint>.responses")
 
     # ---- R04.6 ----------------------------------------------------------------------------------------------------------------
     # Stated on what the union decoder WRITES, not on how the template keeps its books.  The construct macro of the union template is
